@@ -87,6 +87,8 @@ def _dn_scan(an, prog, b, assume, st, depth, tmap=None):
             # function values handed over: the closure / constructor that wraps the parsed number
             for a in t["args"]:
                 e = peel(an.op(b, a), identity=(), casts=False)
+                while e[0] == "cast" and str(e[1]).startswith("PointerCoercion"):
+                    e = peel(e[2], identity=(), casts=False)        # `u8::from_be_bytes as fn(..)`
                 if e[0] == "closure":
                     cb = prog.body(e[1])
                     if cb is not None:
@@ -323,6 +325,12 @@ def _consumers(an, prog, body, blocks_pred, argmap, depth=0):
             cons.append(("prim", p[2], p[3], c.npath))
         elif c.npath in ("nom::bytes::complete::take", "nom::bytes::streaming::take"):
             cons.append(("take", cn(an.op(body, tt["args"][0])), c.npath))
+        elif re.search(r"<impl \[T\]>::(split_first_chunk|split_at|split_at_checked)$", c.npath):
+            # the input is cut by hand: `i.split_first_chunk::<6>()`, `i.split_at(n)`
+            if c.npath.endswith("split_first_chunk") and len(c.args or []) >= 2 and str(c.args[1]).isdigit():
+                cons.append(("take", "%s_usize" % c.args[1], c.npath))
+            elif len(tt["args"]) == 2:
+                cons.append(("take", cn(an.op(body, tt["args"][1])), c.npath))
         elif c.local and c.path == DN_PARSE:
             sg = an.op(body, tt["args"][2])
             if argmap:
@@ -550,7 +558,7 @@ def run(ctx, env):
                 if c[0] != "enum-parser":
                     continue
                 uses = uses_of_local(fftb, c[2])
-                prop = any(u[0] == "callarg" and Callee(u[2][0]["func"]["fn"]).nsyn == "std::ops::Try::branch" for u in uses if u[2][0]["func"].get("k") == "const")
+                prop = any(u[0] == "callarg" and u[2][0]["func"].get("k") == "const" and Callee(u[2][0]["func"]["fn"]).nsyn == "std::ops::Try::branch" for u in uses)
                 ctx.ob("R4.8", FFT, "partial-enum-parser:%s" % name, not prop,
                        "%s is %s" % (c[1], "propagated with `?`: a wire value without a variant fails the record and all later records of the flowset" if prop else "handled (no `?`)"),
                        site=fftb.line(c[3]))
